@@ -632,22 +632,21 @@ func (a *CBOAnalyzer) assessRiskLevel(cbo int) string {
 	return "high"
 }
 
-// walkNode recursively walks AST nodes
+// walkNode recursively walks AST nodes, descending into every child field
+// so that expressions in else/except/finally blocks, conditions, operands,
+// keyword arguments and decorators are visited as well
 func (a *CBOAnalyzer) walkNode(node *parser.Node, visitor func(*parser.Node) bool) {
 	if node == nil || !visitor(node) {
 		return
 	}
 
-	for _, child := range node.Children {
-		a.walkNode(child, visitor)
-	}
-
-	for _, child := range node.Body {
-		a.walkNode(child, visitor)
-	}
-
-	for _, child := range node.Args {
-		a.walkNode(child, visitor)
+	for _, children := range [][]*parser.Node{
+		node.Children, node.Decorator, node.Args, node.Keywords,
+		node.Body, node.Handlers, node.Orelse, node.Finalbody,
+	} {
+		for _, child := range children {
+			a.walkNode(child, visitor)
+		}
 	}
 
 	// Also traverse Value field if it contains a Node
@@ -656,6 +655,11 @@ func (a *CBOAnalyzer) walkNode(node *parser.Node, visitor func(*parser.Node) boo
 			a.walkNode(valueNode, visitor)
 		}
 	}
+
+	a.walkNode(node.Left, visitor)
+	a.walkNode(node.Right, visitor)
+	a.walkNode(node.Test, visitor)
+	a.walkNode(node.Iter, visitor)
 }
 
 // inferObjectType tries to infer the type of an object from context
